@@ -4,10 +4,15 @@ SRCROOT=${1:-/verif/seeded}
 cd /repo
 [ -n "$(git status --porcelain)" ] && { echo "repo dirty"; exit 2; }
 mkdir -p /tmp/kmseed-verif; cp /verif/known_findings.json /tmp/kmseed-verif/
+MISS=0
 for d in $(ls $SRCROOT | grep -E "^C[0-9]+-[0-9]+$"); do
   P=$SRCROOT/$d/patch.diff; [ -f $SRCROOT/$d/patch.rebased.diff ] && P=$SRCROOT/$d/patch.rebased.diff
   if ! git apply $P 2>/dev/null; then echo "$d APPLY-FAILED"; git reset -q --hard HEAD; continue; fi
-  hits=$(/verif/bin/kmcheck -prop all -verif /tmp/kmseed-verif 2>&1 | grep -oE "^VIOLATION property=C[0-9]+" | sort -u | sed 's/VIOLATION property=//' | paste -sd, )
-  echo "$d detected_by=${hits:-NONE}"
+  /verif/bin/kmcheck -prop all -verif /tmp/kmseed-verif > /tmp/kmseed-verif/out.txt 2>&1
+  hits=$(grep -oE "^VIOLATION property=C[0-9]+" /tmp/kmseed-verif/out.txt | sort -u | sed 's/VIOLATION property=//' | paste -sd, )
+  rules=$(grep -oE "^(FAIL |.*ANCHOR-LOST rule=)R-C[0-9]+-[0-9]+" /tmp/kmseed-verif/out.txt | grep -oE "R-C[0-9]+-[0-9]+" | sort -u | paste -sd, )
+  echo "$d detected_by=${hits:-NONE} rules=${rules:-none}"
+  case ",$hits," in *",${d%%-*},"*) ;; *) echo "  MISSED-BY-OWN-PROPERTY $d"; MISS=1;; esac
   git reset -q --hard HEAD; git clean -fdq -- . 2>/dev/null
 done
+exit $MISS
